@@ -573,7 +573,10 @@ func ({short_name} {full_name}) MarshalJSON() ([]byte, error) {{
 }
 
 fn write_comment(w: &mut dyn Write, indent: usize, comment: &str) -> std::io::Result<()> {
-    writeln!(w, "{}// {}", "\t".repeat(indent), comment)?;
+    // Doc text may span several lines: every line has to carry the comment marker.
+    for line in comment.split(|c| c == '\n' || c == '\r') {
+        writeln!(w, "{}// {}", "\t".repeat(indent), line)?;
+    }
     Ok(())
 }
 
